@@ -23,6 +23,9 @@ EXTERNALS = ["os", "logging", "logging.handlers", "xml.etree.ElementTree", "logg
 # stmt: ("import", [dotted, ...]) | ("from", level, dotted|None, [names]) | ("block", kind, [stmt]) | ("other",)
 
 
+TWINS = [False]      # switched on by the checks that are prepared for it (C02, C03 through the scan stream, C15)
+
+
 def gen_tree(rng, max_depth=4, root=None, with_init=True, nonpy=True):
     root = root or rng.choice(["proj", "p", "pr"])
     dirs = [(root,)]
@@ -43,6 +46,12 @@ def gen_tree(rng, max_depth=4, root=None, with_init=True, nonpy=True):
             f = d + (rng.choice(pool),)
             if f not in dirs and f not in files:
                 files[f] = {"py": True, "body": []}
+    if TWINS[0] and rng.random() < 0.15:
+        # a module file next to a package directory of the same name (a.py beside a/): both exist on disk, they share one
+        # module name - the package's sub modules and the file's import statements all belong to the architecture
+        cand = [d for d in dirs if len(d) > 1 and d not in files]
+        if cand:
+            files[rng.choice(cand)] = {"py": True, "body": []}
         if with_init and rng.random() < 0.5:
             files[d + ("__init__",)] = {"py": True, "body": []}
         if nonpy and rng.random() < 0.2:
